@@ -1,10 +1,11 @@
-(* C13 -- the round budget  tree_fuel n = n^3 + 2n + 1  that Ssp.v gives updateTree's loop is NOT sufficient.
+(* C13 -- the round budget  cubic_fuel n = n^3 + 2n + 1  that Ssp.v first gave updateTree's loop is NOT sufficient
+   (Ssp.v now uses big_fuel).
    Witness: 12 sinks (sink 0 of capacity 5, sinks 1..11 of capacity 1), 11 sources of demand 1, costs below.
    Source i goes to sink a = 11 - i (the sinks fill in the order 11, 10, .., 1; each arrival makes a sink full and
    calls updateTree).  In the last call the moving costs are  a -> u : a - u - 2^(u-2)  for u > a (negative),
    a -> sink 0 : 4196 + a,  a -> u : 4307 for 0 < u < a.  The loop extracts the marked sink of smallest label;
    extracting u lowers the labels of ALL a < u below everything they had, so the sinks below u are re-extracted in
-   the same pattern: 2^11 extractions + 1 final round = 2049 > 1753 = tree_fuel 12.  (D. B. Johnson's 1973 example
+   the same pattern: 2^11 extractions + 1 final round = 2049 > 1753 = cubic_fuel 12.  (D. B. Johnson's 1973 example
    for Dijkstra's algorithm with negative arcs, realised as a reachable state of the solver.)
    The C++ (harness/transp.cpp) returns the optimal plan of cost 23628 on this input; with one more sink the number of
    rounds doubles (22 full sinks: 1 s; the costs stay below INT_MAX up to 28 full sinks). *)
@@ -46,12 +47,12 @@ Qed.
 Lemma tree_fuel_insufficient :
   check_pb cex_pb = true /\ (forall j i, 0 <= cost cex_pb j i < INT_MAX) /\
   total_demand cex_pb <= total_capacity cex_pb /\
-  ssp cex_pb = Fail (EFuel 483) /\
-  sspF big_fuel cex_pb =
+  sspF cubic_fuel cex_pb = Fail (EFuel 483) /\
+  ssp cex_pb =
     Ok (map (fun j => map (fun i => if (j + i =? 11)%nat then 1 else 0) (seq 0 11)) (seq 0 12)) /\
-  tree_fuel (nsnk cex_pb) = 1753%positive /\
+  cubic_fuel (nsnk cex_pb) = 1753%positive /\
   sspF (fun _ => 2048%positive) cex_pb = Fail (EFuel 483) /\
-  sspF (fun _ => 2049%positive) cex_pb = sspF big_fuel cex_pb.
+  sspF (fun _ => 2049%positive) cex_pb = ssp cex_pb.
 Proof.
   split; [vm_compute; reflexivity|]. split; [apply costs_in_range_sound; vm_compute; reflexivity|].
   split; [vm_compute; discriminate|]. split; [vm_compute; reflexivity|]. split; [vm_compute; reflexivity|].
